@@ -119,3 +119,84 @@ def run(ctx, fx, files, rule="R-SIBLING.fallback", only=None):
                                   rfn.file, rl)
     ctx.instance(rule + ".pairs", n)
     return n
+
+
+# ------------------------------------------------------------------ R-SIBLING.batch
+def _mutated_fields(fx, fn, struct_path, depth=0, seen=None):
+    """fields of `struct_path` that fn may mutate: assignments through self, calls whose receiver is a `&mut` borrow (or a
+    lock guard) of the field, and - two levels deep - the same for methods of the struct that fn calls"""
+    from rules.queue import field_of_receiver
+    seen = seen if seen is not None else set()
+    out = set()
+    if fn.id in seen:
+        return out
+    seen.add(fn.id)
+    pref = "." + struct_path + "::"
+    for loc, st in fn.iter_locs():
+        if st[0] == "a" and len(st[1]) > 1:
+            for e in st[1][1:]:
+                if isinstance(e, str) and e.startswith(pref):
+                    out.add(e[len(pref):])
+                    break
+    for b, c in fn.calls():
+        if not c["a"]:
+            continue
+        l = op_local(c["a"][0])
+        if l is None:
+            continue
+        ty = fn.ty(l)
+        last = c["f"].rsplit("::", 1)[-1]
+        if c.get("loc") and fx.has(c["f"]) and depth < 2:
+            rec = fx.raw(c["f"])
+            if (rec["self_ty"] or "").split("<")[0].endswith(struct_path.split("<")[0]) or c["f"].startswith("<" + struct_path):
+                out |= _mutated_fields(fx, Fn(rec), struct_path, depth + 1, seen)
+                continue
+        if ty.startswith("&mut ") or "Guard<" in ty or last in ("lock", "write", "borrow_mut", "get_mut", "entry"):
+            if last in ("len", "is_empty", "get", "contains", "contains_key", "iter", "capacity", "clone", "as_ref", "deref"):
+                continue
+            out |= field_of_receiver(fn, l, struct_path)
+    return out
+
+
+def batch_effects(ctx, fx, files, pairs=(("remove", "remove_batch"), ("put", "put_batch")), rule="R-SIBLING.batch"):
+    """a batch operation does to the store's state at least what the single-item operation does: every field that
+    `remove` may mutate (the storage map, a cache, counters) is also mutated by `remove_batch`, directly or by
+    calling `remove`. A batch path that forgets the cache keeps serving records that were removed."""
+    n = 0
+    ids = set(fx.fn_ids())
+    for f in files:
+        for fid in fx.fn_ids(f):
+            if "::tests::" in fid or "{closure" in fid:
+                continue
+            for single, batch in pairs:
+                if not fid.endswith("::" + single):
+                    continue
+                rec = fx.raw(fid)
+                st = (rec["self_ty"] or "").split("<")[0]
+                if not st:
+                    continue
+                # the batch sibling: same impl, or the BatchBlobStore impl of the same type
+                cands = [i for i in ids if i.endswith("::" + batch) and (fx.raw(i)["self_ty"] or "").split("<")[0] == st
+                         and "::tests::" not in i]
+                for bid in cands:
+                    sfn, bfn = Fn(rec), Fn(fx.raw(bid))
+                    ms = {x for x in _mutated_fields(fx, sfn, st) if not re.search(r"stats|metrics|counters?$", x)}
+                    mb = _mutated_fields(fx, bfn, st)
+                    # a batch path that simply loops over the single-item operation inherits all of its effects
+                    if any(c["f"] == fid for _, c in bfn.calls()):
+                        mb = mb | ms
+                    if not ms:
+                        continue
+                    n += 1
+                    ctx.analysed_fns.update([fid, bid])
+                    missing = sorted(ms - mb)
+                    ok = not missing
+                    ctx.obligation(rule, bid, "%s covers %s" % (batch, single), ok,
+                                   sample={"single": fid, "batch": bid, "single_mutates": sorted(ms), "batch_mutates": sorted(mb)})
+                    if not ok:
+                        ctx.violation(rule, bid, "%s leaves %s untouched" % (batch, missing),
+                                      "%s mutates %s but %s only mutates %s: state that the single-item path updates (%s) keeps its "
+                                      "old contents on the batch path" % (single, sorted(ms), batch, sorted(mb), ", ".join(missing)),
+                                      bfn.file, bfn.line)
+    ctx.instance(rule + ".pairs", n)
+    return n
